@@ -105,3 +105,149 @@ pub fn c11_to_prayer_time() {
     assert!(t.extreme == ph.extreme, "C11 rounding/rendering leaves the extreme flag unaffected");
     assert!(unsafe { HTT.0 } == ph.value.to_bits() && unsafe { HTT.2 } == key as u8, "C11 the hour is rendered under its own key");
 }
+
+// =====================================================================================
+// C05 / C12 / C20 — wiring of prayer_times_dt: what reaches which stage, and the 7-entry result
+pub static mut W_JD_GMT: u64 = 0;
+pub static mut W_JD_RET: u64 = 0;
+pub static mut W_FROM_JD: (u64, u64, u64, u64) = (0, 0, 0, 0);
+pub static mut W_WEATHER: [(u64, u64); 2] = [(0, 0); 2];
+pub static mut W_N: usize = 0;
+
+pub fn jd_new_spy(date: chrono::NaiveDate, gmt: crate::geo::coordinates::Gmt) -> JulianDay {
+    let v = any_f64_in(2.3e6, 2.6e6);
+    unsafe {
+        W_JD_GMT = f64::from(gmt).to_bits();
+        W_JD_RET = v.to_bits();
+    }
+    JulianDay { date, gmt, value: v }
+}
+pub fn from_jd_spy(jd: JulianDay, coords: crate::geo::coordinates::Coordinates) -> TopAstroDay {
+    unsafe {
+        W_FROM_JD = (jd.value.to_bits(), f64::from(coords.latitude).to_bits(), f64::from(coords.longitude).to_bits(), f64::from(coords.elevation).to_bits());
+    }
+    any_tad(jd, coords)
+}
+fn rec_weather(w: Weather) {
+    unsafe {
+        if W_N < 2 {
+            W_WEATHER[W_N] = (f64::from(w.pressure).to_bits(), f64::from(w.temperature).to_bits());
+        }
+        W_N += 1;
+    }
+}
+pub fn adj_ext_wiring_spy(_p: &Params, _t: &TopAstroDay, w: Weather) -> VMap<Prayer, Result<PrayerHour, ()>> {
+    rec_weather(w);
+    let mut h = VMap::new();
+    for k in [Prayer::Fajr, Prayer::Shurooq, Prayer::Dhuhr, Prayer::Asr, Prayer::Maghrib, Prayer::Isha] {
+        let v: Result<PrayerHour, ()> = if kani::any() { Ok(PrayerHour { value: 12., extreme: kani::any() }) } else { Err(()) };
+        h.insert(k, v);
+    }
+    h
+}
+pub fn imsaak_wiring_spy(_p: &Params, _t: &TopAstroDay, w: Weather) -> Result<PrayerTime, ()> {
+    rec_weather(w);
+    Err(())
+}
+
+#[kani::proof]
+#[kani::unwind(9)]
+#[kani::stub(crate::geo::julian_day::JulianDay::new, jd_new_spy)]
+#[kani::stub(crate::geo::astro::TopAstroDay::from_jd, from_jd_spy)]
+#[kani::stub(get_hours_adj_ext, adj_ext_wiring_spy)]
+#[kani::stub(get_imsaak, imsaak_wiring_spy)]
+#[kani::stub(crate::prayer_times::hours::hour_to_time, hour_to_time_spy)]
+pub fn c20_dt_wiring() {
+    let p = Params::new(Method::Mwl);
+    let coords = any_coords();
+    let g = any_f64_in(-12., 12.);
+    let location = crate::geo::coordinates::Location { coords, gmt: crate::geo::coordinates::Gmt::try_from(g).unwrap() };
+    let date = chrono::NaiveDate::from_yo_opt(2023, 100).unwrap();
+    let with_weather: bool = kani::any();
+    let pw = any_f64_in(100., 1050.);
+    let tw = any_f64_in(-90., 57.);
+    let weather = if with_weather {
+        Some(Weather { pressure: crate::geo::weather::Pressure::try_from(pw).unwrap(), temperature: crate::geo::weather::Temperature::try_from(tw).unwrap() })
+    } else {
+        None
+    };
+    crate::vcover!();
+    let out = prayer_times_dt(&p, location, date, weather);
+    unsafe {
+        assert!(W_JD_GMT == g.to_bits(), "C20 the GMT offset is handed to the Julian Day of local midnight");
+        assert!(W_FROM_JD.0 == W_JD_RET, "C20 the ephemeris is evaluated at that Julian Day");
+        assert!(W_FROM_JD.1 == f64::from(coords.latitude).to_bits() && W_FROM_JD.2 == f64::from(coords.longitude).to_bits()
+            && W_FROM_JD.3 == f64::from(coords.elevation).to_bits(), "C20 the location's coordinates reach the topocentric stage unchanged");
+        let d = Weather::default();
+        let want = if with_weather { (pw.to_bits(), tw.to_bits()) } else { (f64::from(d.pressure).to_bits(), f64::from(d.temperature).to_bits()) };
+        assert!(W_N == 2 && W_WEATHER[0] == want && W_WEATHER[1] == want, "C12 absent weather is the default weather, for the six hours and for Imsaak alike");
+    }
+    assert!(out.len() == 7, "C05 every call returns exactly seven entries");
+    assert!(out.contains_key(&Prayer::Imsaak) && out.contains_key(&Prayer::Fajr) && out.contains_key(&Prayer::Isha), "C05 Imsaak, Fajr ... Isha are all present");
+}
+
+// =====================================================================================
+// C12 — hour_to_time consults the offset map only at the prayer's own key
+#[kani::proof]
+#[kani::unwind(8)]
+pub fn c12_offset_own_key_only() {
+    let prayer = crate::verif_kani::any_prayer6();
+    let hour = any_f64_in(-24., 48.);
+    let off = any_f64_in(-90., 90.);
+    let mut p1 = Params::new(Method::Mwl);
+    p1.round_seconds = match kani::any::<u8>() % 4 { 0 => RoundSeconds::None, 1 => RoundSeconds::NormalRounding, 2 => RoundSeconds::SpecialRounding, _ => RoundSeconds::AggressiveRounding };
+    p1.minutes.insert(prayer, off);
+    let mut p2 = p1.clone();
+    for k in [Prayer::Imsaak, Prayer::Fajr, Prayer::Shurooq, Prayer::Dhuhr, Prayer::Asr, Prayer::Maghrib, Prayer::Isha] {
+        if k != prayer {
+            p2.minutes.insert(k, any_f64_in(-90., 90.));
+        }
+    }
+    crate::vcover!();
+    let a = crate::prayer_times::hours::hour_to_time(&p1, prayer, hour);
+    let b = crate::prayer_times::hours::hour_to_time(&p2, prayer, hour);
+    assert!(a == b, "C12 a minute offset on another key never moves this prayer");
+}
+
+// =====================================================================================
+// C14 — the range API is the single-date API applied to exactly the dates of the range.
+// BOUNDED (labelled): spans of -2..=3 days; the single-date API is replaced by a spy.
+pub static mut DT_DATES: [i32; 4] = [0; 4];
+pub static mut DT_N: usize = 0;
+pub fn dt_spy(_p: &Params, _l: Location, date: NaiveDate, w: Option<Weather>) -> BTreeMap<Prayer, Result<PrayerTime, ()>> {
+    unsafe {
+        if DT_N < 4 {
+            DT_DATES[DT_N] = chrono::Datelike::num_days_from_ce(&date);
+        }
+        DT_N += 1;
+    }
+    assert!(w.is_none(), "C14 the range API passes no weather");
+    BTreeMap::new()
+}
+#[kani::proof]
+#[kani::unwind(6)]
+#[kani::stub(prayer_times_dt, dt_spy)]
+pub fn c14_rng_calls_dt() {
+    let p = Params::new(Method::Mwl);
+    let location = Location { coords: any_coords(), gmt: crate::geo::coordinates::Gmt::try_from(0.).unwrap() };
+    // starts chosen on a year end, a leap day and the Gregorian switch of the Julian-Day formula
+    let start = match kani::any::<u8>() % 3 {
+        0 => NaiveDate::from_ymd_opt(2023, 12, 30).unwrap(),
+        1 => NaiveDate::from_ymd_opt(2024, 2, 28).unwrap(),
+        _ => NaiveDate::from_ymd_opt(1582, 10, 14).unwrap(),
+    };
+    let span: i64 = kani::any();
+    kani::assume(span >= -2 && span <= 3);
+    let end = start + chrono::Duration::days(span - 1);
+    crate::vcover!();
+    let r = prayer_times_dt_rng(&p, location, &DateRange::from(start..=end));
+    let n = if span > 0 { span as usize } else { 0 };
+    assert!(unsafe { DT_N } == n, "C14 the single-date computation runs exactly once per date of the range, never when the end precedes the start");
+    assert!(r.len() == n, "C14 one entry per calendar date");
+    let s0 = chrono::Datelike::num_days_from_ce(&start);
+    let mut i = 0;
+    while i < n {
+        assert!(unsafe { DT_DATES[i] } == s0 + i as i32, "C14 the i-th entry is the single-date result for start + i days");
+        i += 1;
+    }
+}
